@@ -437,6 +437,8 @@ def _is_derived_driver(F, fb, depth=0):
         return False
     sl = A.slice_back(fb, start_locals=[0])
     drivers = [t for _, t in sl.calls if callee_is(t, r"UnboundedReceiver.*::try_next$", r"Iterator::next$", r"Receiver.*::try_recv$")]
+    # (or a private helper that is itself such a driver: `try_recv(&mut self.rx)?`)
+    drivers += [t for _, t in sl.calls if F.callee_body(t, fb.crate) is not None and F.callee_body(t, fb.crate) is not fb and _is_derived_driver(F, F.callee_body(t, fb.crate), depth + 1)]
     if not drivers:
         return False
     # the returned Option must be None whenever the driver yields nothing: all Some-aggregates / results flow
@@ -466,6 +468,13 @@ def _derived_driver_by_table(F, fb):
     except Unverifiable:
         return False
     some = 0
+    # crate-local helpers that are themselves drivers (`fn try_recv(rx) -> Option<T> { rx.try_next().ok().flatten() }`)
+    helper_drivers = set()
+    for _, t in fb.calls():
+        cb = F.callee_body(t, fb.crate)
+        if cb is not None and cb is not fb and cb.name not in helper_drivers and _is_derived_driver(F, cb, 1):
+            helper_drivers.add(cb.name)
+    is_drv = lambda x: x[0] == "call" and (re.search(DRIVER_RX, x[1]) or x[1] in helper_drivers)
     for p in paths:
         if p.cut:
             continue
@@ -476,7 +485,7 @@ def _derived_driver_by_table(F, fb):
         some += 1
         ok = False
         for a, o in p.conds:
-            if a[0] == "discr" and o == "Some" and D.mentions(a[1], lambda x: x[0] == "call" and re.search(DRIVER_RX, x[1])):
+            if a[0] == "discr" and o == "Some" and D.mentions(a[1], is_drv):
                 # the *first* driver call of the path (not one inside a later loop over something else)
                 ok = True
         if not ok:
